@@ -1,7 +1,7 @@
 (* C48 — executable model of internal/xsync/ttlmap.go (TTLMap[K,V]).
 
    The model mirrors the data structure that exists:
-     items : key -> index into order     (Go map[K]int)            -> gmap Z nat
+     items : key -> index into order     (Go map[K]int)            -> gmap key nat
      order : append-only slice of entries (key, value, expireAt)   -> list entry
      head  : index of the oldest not-yet-evicted slot              -> nat
    and the methods Set / Get / Delete / Reset / Len / ActiveLen with the private
@@ -15,18 +15,22 @@ From Coq Require Import ZArith.
 From stdpp Require Import gmap.
 Open Scope Z_scope.
 
-Record entry := Entry { ekey : Z; evalue : Z; eexp : Z }.
+(* keys are positive numbers (any countable key type embeds; the harness instantiates the generic
+   Go map at int64 and uses keys >= 1) *)
+Notation key := positive.
 
-Record st := St { items : gmap Z nat; order : list entry; head : nat }.
+Record entry := Entry { ekey : key; evalue : Z; eexp : Z }.
+
+Record st := St { items : gmap key nat; order : list entry; head : nat }.
 
 Definition init : st := St ∅ [] 0.
 
 (* operations of the public API; every operation carries the reading of the map's clock that it
    makes (Delete, Reset and Len make none: the reading is then ignored) *)
 Inductive op :=
-| OSet (k v : Z)
-| OGet (k : Z)
-| ODelete (k : Z)
+| OSet (k : key) (v : Z)
+| OGet (k : key)
+| ODelete (k : key)
 | OReset
 | OLen
 | OActiveLen.
@@ -40,7 +44,7 @@ Section TTL.
   Variable ttl : Z.
 
   (* Set, first half: refresh in place when the key is mapped, append otherwise *)
-  Definition set_raw (now k v : Z) (s : st) : st :=
+  Definition set_raw (now : Z) (k : key) (v : Z) (s : st) : st :=
     let exp := now + ttl in
     match items s !! k with
     | Some idx =>
@@ -53,7 +57,7 @@ Section TTL.
     end.
 
   (* evict: `for s.head < len(s.order)` walking the region order[head:] *)
-  Fixpoint evict_go (now : Z) (region : list entry) (it : gmap Z nat) (h : nat) : gmap Z nat * nat :=
+  Fixpoint evict_go (now : Z) (region : list entry) (it : gmap key nat) (h : nat) : gmap key nat * nat :=
     match region with
     | [] => (it, h)
     | e :: rest =>
@@ -71,7 +75,7 @@ Section TTL.
     St it (order s) h.
 
   (* slow path of maybeCompact: keep slot i iff items[order[i].key] == i *)
-  Fixpoint keep_mapped (it : gmap Z nat) (i : nat) (region : list entry) : list entry :=
+  Fixpoint keep_mapped (it : gmap key nat) (i : nat) (region : list entry) : list entry :=
     match region with
     | [] => []
     | e :: rest =>
@@ -82,7 +86,7 @@ Section TTL.
     end.
 
   (* `for i := range s.order { s.items[s.order[i].key] = i }` *)
-  Fixpoint reindex (l : list entry) (i : nat) (it : gmap Z nat) : gmap Z nat :=
+  Fixpoint reindex (l : list entry) (i : nat) (it : gmap key nat) : gmap key nat :=
     match l with
     | [] => it
     | e :: rest => reindex rest (S i) (<[ekey e := i]> it)
@@ -101,10 +105,10 @@ Section TTL.
       let kept := if fast_path s then region else keep_mapped (items s) (head s) region in
       St (reindex kept 0 (items s)) kept 0.
 
-  Definition set_op (now k v : Z) (s : st) : st :=
+  Definition set_op (now : Z) (k : key) (v : Z) (s : st) : st :=
     maybe_compact (evict now (set_raw now k v s)).
 
-  Definition get_op (now k : Z) (s : st) : option Z * st :=
+  Definition get_op (now : Z) (k : key) (s : st) : option Z * st :=
     match items s !! k with
     | Some idx =>
         match order s !! idx with
@@ -116,7 +120,7 @@ Section TTL.
     | None => (None, s)
     end.
 
-  Definition delete_op (k : Z) (s : st) : st := St (delete k (items s)) (order s) (head s).
+  Definition delete_op (k : key) (s : st) : st := St (delete k (items s)) (order s) (head s).
 
   Definition reset_op (s : st) : st := St ∅ [] 0.
 
@@ -127,7 +131,7 @@ Section TTL.
 
   (* ActiveLen: count the live mappings, drop the expired ones from the index *)
   Definition active_len_op (now : Z) (s : st) : nat * st :=
-    let live := filter (fun p : Z * nat => entry_live now s (snd p) = true) (items s) in
+    let live := filter (fun p : key * nat => entry_live now s (snd p) = true) (items s) in
     (size live, St live (order s) (head s)).
 
   Definition step (now : Z) (o : op) (s : st) : st * res :=
@@ -150,7 +154,7 @@ Section TTL.
   (* ---------------------------------------------------------------- the specification *)
 
   (* a finite map from key to (value, expireAt) *)
-  Definition spec := gmap Z (Z * Z).
+  Definition spec := gmap key (Z * Z).
 
   Definition spec_step (now : Z) (o : op) (m : spec) : spec :=
     match o with
@@ -160,7 +164,7 @@ Section TTL.
     | _ => m
     end.
 
-  Definition spec_get (now k : Z) (m : spec) : option Z :=
+  Definition spec_get (now : Z) (k : key) (m : spec) : option Z :=
     match m !! k with
     | Some (v, e) => if now <? e then Some v else None
     | None => None
@@ -174,19 +178,19 @@ Section TTL.
 
   (* the property read literally off a history (most recent operation first): the last Set of k
      that no later Delete k / Reset follows, as (value, time of that Set) *)
-  Fixpoint last_set (k : Z) (rh : list (Z * op)) : option (Z * Z) :=
+  Fixpoint last_set (k : key) (rh : list (Z * op)) : option (Z * Z) :=
     match rh with
     | [] => None
     | (t, o) :: older =>
         match o with
-        | OSet k' v => if k' =? k then Some (v, t) else last_set k older
-        | ODelete k' => if k' =? k then None else last_set k older
+        | OSet k' v => if Pos.eqb k' k then Some (v, t) else last_set k older
+        | ODelete k' => if Pos.eqb k' k then None else last_set k older
         | OReset => None
         | _ => last_set k older
         end
     end.
 
-  Definition literal_get (now k : Z) (h : list (Z * op)) : option Z :=
+  Definition literal_get (now : Z) (k : key) (h : list (Z * op)) : option Z :=
     match last_set k (rev h) with
     | Some (v, t) => if now - t <? ttl then Some v else None
     | None => None
@@ -207,13 +211,12 @@ Section TTL.
 
   (* ---------------------------------------------------------------- observation for the tie *)
 
-  Definition PM : Z := 2147483647.
-
+  (* position-weighted sums: cheap to evaluate, sensitive to content and to position *)
   Definition order_digest (l : list entry) : Z :=
-    fold_left (fun h e => (h * 1000003 + ((ekey e * 7919 + evalue e * 104729 + eexp e) mod PM) + 1) mod PM) l 0.
+    snd (fold_left (fun '(i, h) e => (i + 1, h + i * (Zpos (ekey e) * 7919 + evalue e * 104729 + eexp e))) l (1, 0)).
 
-  Definition items_digest (it : gmap Z nat) : Z :=
-    map_fold (fun k idx acc => (acc + ((k * 1009 + Z.of_nat idx + 1) * (k * 1009 + Z.of_nat idx + 1)) mod PM) mod PM) 0 it.
+  Definition items_digest (it : gmap key nat) : Z :=
+    map_fold (fun k idx acc => acc + (Zpos k * 1009 + Z.of_nat idx + 1) * (Zpos k * 1009 + Z.of_nat idx + 1)) 0 it.
 
   (* what the harness reads off the real object after every operation *)
   Definition observe (s : st) : Z * Z * Z * Z * Z :=
@@ -228,19 +231,36 @@ Section TTL.
     | RNat n => (3, Z.of_nat n)
     end.
 
-  (* run a history, compare the result of every operation and the observable state after it with
-     what the implementation produced; return the index of the first disagreement *)
-  Fixpoint first_mismatch (i : nat) (h : list (Z * op)) (obs : list ((Z * Z) * (Z * Z * Z * Z * Z))) (s : st) : option nat :=
+  (* two numbers per step for the tie: the result and the sizes packed into bit fields
+     (values < 2^20, sizes < 2^12), and the two digests folded into 61 bits *)
+  Definition step_code (r : res) (s : st) : Z * Z :=
+    let '(c1, c2) := res_code r in
+    let '(o1, o2, o3, o4, o5) := observe s in
+    (c1 + 4 * c2 + 4194304 * o1 + 17179869184 * o2 + 70368744177664 * o3,
+     Z.land (o4 + 3 * o5) 2305843009213693951).
+
+  (* packed operation: ((now * 2^20 + v) * 2^12 + k) * 8 + code, code 0=Set 1=Get 2=Delete 3=Reset
+     4=Len 5=ActiveLen; 1 <= k < 2^12, 0 <= v < 2^20, 0 <= now *)
+  Definition decode_op (z : Z) : Z * op :=
+    let code := z mod 8 in
+    let z1 := z / 8 in
+    let k := Z.to_pos (z1 mod 4096) in
+    let z2 := z1 / 4096 in
+    let v := z2 mod 1048576 in
+    let now := z2 / 1048576 in
+    (now, if code =? 0 then OSet k v else if code =? 1 then OGet k else if code =? 2 then ODelete k
+          else if code =? 3 then OReset else if code =? 4 then OLen else OActiveLen).
+
+  (* run a history, compare the code of (result, observable state) after every operation with the
+     one the implementation produced (two numbers per step); return the index of the first
+     disagreement *)
+  Fixpoint first_mismatch (i : nat) (h : list Z) (obs : list Z) (s : st) : option nat :=
     match h, obs with
-    | (now, o) :: rest, (r, ob) :: orest =>
+    | z :: rest, a :: b :: orest =>
+        let '(now, o) := decode_op z in
         let '(s', r') := step now o s in
-        let '(c1, c2) := res_code r' in
-        let '(o1, o2, o3, o4, o5) := observe s' in
-        let '(d1, d2) := r in
-        let '(p1, p2, p3, p4, p5) := ob in
-        if (c1 =? d1) && (c2 =? d2) && (o1 =? p1) && (o2 =? p2) && (o3 =? p3) && (o4 =? p4) && (o5 =? p5)
-        then first_mismatch (S i) rest orest s'
-        else Some i
+        let '(a', b') := step_code r' s' in
+        if (a' =? a) && (b' =? b) then first_mismatch (S i) rest orest s' else Some i
     | [], [] => None
     | _, _ => Some i
     end.
